@@ -1079,6 +1079,8 @@ def make_text_models():
         (rx(r"^core::fmt::rt::Argument::<'_>::new_display::<.*>$"), m_new_display),
         (rx(r"^core::fmt::rt::Argument::<'_>::new_debug::<&*(?:std::path::)?(Path|PathBuf|String|str)>$"), m_new_debug),
         (rx(r"^(?:std|core)::(?:rt|panicking)::panic_fmt$"), m_panic_fmt),
+        (rx(r"^core::fmt::rt::Argument::<'_>::new_(debug|display)::<&*(u8|u16|u32|u64|usize|i32|i64|isize)>$"),
+         lambda ex, st, args, callee, ty: Adt("fmt::Argument", None, "int", [SStr([BV(32, False, ord(c)) for c in "<number>"])])),
         (rx(r"^<(?:errors::)?RvError as ToString>::to_string$"), lambda ex, st, args, callee, ty: SStr([BV(32, False, ord(c)) for c in "<error text>"])),
         (rx(r"^Arguments::<'_>::new::<.*>$"), m_arguments_new),
         (rx(r"^(?:std|alloc)::fmt::format$"), m_format),
